@@ -292,11 +292,10 @@ def read_env(src, expr, skip_envs=(), tolerance=0, mode=MODE_NON_MATH):
             if name == 'end':
                 # only the first group names the environment; whatever follows
                 # is read again later, so it must not be read by the look-ahead
-                args = make_read_peek(read_end_name)(src, mode=mode)
+                end_name = make_read_peek(read_end_name)(src)
                 break
         contents.append(read_expr(src, skip_envs=skip_envs, tolerance=tolerance, mode=mode))
-    error = not src.hasNext() or not args or \
-        not isinstance(args[0], BraceGroup) or args[0].string != expr.name
+    error = not src.hasNext() or end_name != expr.name
     if error and tolerance == 0:
         unclosed_env_handler(src, expr, src.peek((0, 6)))
     elif not error:
@@ -308,20 +307,32 @@ def read_env(src, expr, skip_envs=(), tolerance=0, mode=MODE_NON_MATH):
     return expr
 
 
-def read_end_name(src, mode=MODE_NON_MATH):
-    r"""Read the name group of an \end. Assumes escape is next in the buffer.
+def read_end_name(src):
+    r"""Read the name of an \end without parsing it. Assumes escape is next.
+
+    Scans \end, an optional spacer and one brace group, token by token, so
+    that a look-ahead costs no more than the length of the group.
 
     :param Buffer src: a buffer of tokens
-    :param str mode: math or not math mode
-    :return: the brace group naming the environment, if there is one
-    :rtype: TexArgs
+    :return: the text between the braces, None if no brace group follows
+    :rtype: Union[None,str]
     """
     src.forward(2)
     read_spacer(src)
-    args = TexArgs()
-    if src.hasNext() and src.peek().category == TC.GroupBegin:
-        args.append(read_arg(src, next(src), tolerance=1, mode=mode))
-    return args
+    if not (src.hasNext() and src.peek().category == TC.GroupBegin):
+        return None
+    next(src)
+    depth, name = 1, ''
+    while src.hasNext():
+        token = next(src)
+        if token.category == TC.GroupBegin:
+            depth += 1
+        elif token.category == TC.GroupEnd:
+            depth -= 1
+            if depth == 0:
+                break
+        name += token
+    return name
 
 
 ############
